@@ -112,10 +112,19 @@ def arithmetic_case(ctx, idx, rng):
     b = _state(rng, qd, L, qL=int(a.qD[-1][0]))
     A = gen.rand_mpo(rng, qd, L, Dmax=2)
     B = gen.rand_mpo(rng, qd, L, Dmax=2, boundary=(int(A.qD[0][0]), int(A.qD[-1][0])))
+    # a LOCAL operator: identity tensors with 1x1 bonds on every site but one (the form single-site observables and MPO.identity have)
+    Iloc = ptn.MPO.identity(qd, L, dtype=(complex, float)[idx % 2])
+    if idx % 3:
+        j = int(rng.integers(0, L))
+        Iloc.A[j] = Iloc.A[j] * np.arange(1, d + 1).reshape(d, 1, 1, 1)          # a charge-neutral diagonal operator on site j
+    ac = _state(rng, qd, L)
+    ac.A = [np.asarray(t, dtype=complex) for t in ac.A]
     ops = {
         'mps-add': (lambda: a + b, [a, b]), 'mps-sub': (lambda: a - b, [a, b]), 'mps-add-self': (lambda: a + a, [a]),
         'mpo-add': (lambda: A + B, [A, B]), 'mpo-sub': (lambda: A - B, [A, B]), 'mpo-matmul': (lambda: A @ B, [A, B]), 'mpo-matmul-self': (lambda: A @ A, [A]),
         'apply_operator': (lambda: ptn.apply_operator(A, a), [A, a]),
+        'apply_operator-local': (lambda: ptn.apply_operator(Iloc, ac), [Iloc, ac]),
+        'mpo-matmul-local': (lambda: Iloc @ A, [Iloc, A]), 'mpo-add-local': (lambda: Iloc + Iloc, [Iloc]),
         'vdot': (lambda: ptn.vdot(a, b), [a, b]), 'norm': (lambda: ptn.norm(a), [a]),
         'operator_average': (lambda: ptn.operator_average(a, A), [a, A]),
         'operator_inner_product': (lambda: ptn.operator_inner_product(b, A, a), [a, b, A]),
